@@ -8,9 +8,12 @@
    st[i] is the last stage article i has completed (0 none, 1 expanded, 2 parsed, 3 cleaned,
    4 laid out).  The order between different articles is left free (the PDF writer finishes an
    article before it starts the next, the ODF writer parses all, cleans all, lays out all),
-   but every article must pass every stage, in order, exactly once, before Output; a writer
-   that skips an article, starts over (fail-safe second pass), raises or gives up has no
-   action here, so a recorded run in which that happens is rejected.
+   but every article passes every stage, in order, exactly once, before Output; a writer
+   that starts over (fail-safe second pass), raises or gives up has no action here.  This is
+   the reference protocol (model-checked below).  In trace validation (RenderTrace.tla) the
+   per-article stage events are observations of internal seams: they are matched against this
+   machine and deviations are flagged, but only the output-level events (archive opened, no
+   second pass / exception / hang, output file, Judge) decide a verdict.
 
    Judge(f, ok) is the final verdict on the produced file:  ok = the file is readable (PDF:
    pypdf opens it and it has pages; ODF: the package unzips, content.xml / styles.xml are
